@@ -6,7 +6,7 @@ CONE = ["Server/ServerModel.v", "Server/ServerProofs.v", "Props/C05.v", "Dic/Res
         "Server/Protocol.v", "Server/ConcModel.v", "Server/ConcProofs.v", "Server/ConcAtomic.v", "Props/C14.v", "Gen/Protocol.v"]
 THEOREMS = ["C05_init_wf", "C05_step_safe", "C05_no_panic", "C05_fuel_irrelevant", "C05_answer_depends_on_data_only", "C05_no_deadlock"]
 
-ODD_STRINGS = ["ゎ", "くゎし", "ｱ", "",  " ", "\n", "\t", "あ い", "漢字", "ABC", "abc", "ー", "ゔ", "１２３", "😀", "a" * 300, "あ" * 120, "\u0000", "　", "き\nあ\ty\t/ア行五段/\n;", "/", ";", "'\"\\"]
+ODD_STRINGS = ["ゎ", "くゎし", "ｱ", "a" + "あ" * 16, "ab" + "あ" * 21, "é" + "か" * 15 + "z", "あ" * 16 + "a", "a" * 47 + "あ", "𠮷" * 12 + "a", "",  " ", "\n", "\t", "あ い", "漢字", "ABC", "abc", "ー", "ゔ", "１２３", "😀", "a" * 300, "あ" * 120, "\u0000", "　", "き\nあ\ty\t/ア行五段/\n;", "/", ";", "'\"\\"]
 
 
 def gen_c05_history(rnd, tier):
@@ -138,6 +138,14 @@ def run(tier, seed):
         for e in endings:
             hist.append({"kind": "register", "wkind": "Guess", "reading": sr + e, "word": "欠" + e})
         hist += [{"kind": "convert", "input": "くるまで", "context": "Normal"}, {"kind": "restart"}, {"kind": "convert", "input": "くるまで", "context": "Normal"}]
+        corpus.append(hist)
+    # every odd string through every method that takes a string (lengths and widths around any internal preview / slice)
+    widths = ["a" * i + "あ" * j for i in (1, 2, 3) for j in (10, 15, 16, 21, 31, 42)] + ["あ" * j + "a" for j in (15, 16, 21, 31)]
+    for chunk in [ODD_STRINGS, widths]:
+        hist = []
+        for x in chunk:
+            hist += [{"kind": "tankan", "input": x}, {"kind": "alpha", "input": x}, {"kind": "convert", "input": x[:40], "context": "Normal"}]
+        hist += [{"kind": "convert", "input": "くるまで", "context": "Normal"}, {"kind": "tankan", "input": "く"}, {"kind": "restart"}, {"kind": "convert", "input": "くるまで", "context": "Normal"}]
         corpus.append(hist)
     items = [(fixed_base, c) for c in corpus] + items
     runs = run_histories(items, threads=12)
